@@ -141,10 +141,6 @@ mut("C17", "concat_in_place", "liquid/builtin/filters/array.py",
     "    return list(chain(sequence, second_array))",
     "    if isinstance(second_array, list):\n        second_array[0:0] = list(sequence)\n        return second_array\n    return list(chain(sequence, second_array))",
     "mutates the right operand (render data) in place")
-mut("C17", "lexer_memo_ignores_comment_delims", "liquid/environment.py",
-    "            self.statement_end_string,\n            self.comment_start_string,\n            self.comment_end_string,\n        )\n\n    def add_tag",
-    "            self.statement_end_string,\n        )\n\n    def add_tag",
-    "template comments silently stop working (C11 mutant too)")
 
 # ---------------------------------------------------------------- C11
 mut("C11", "tokenizer_drops_comment_delims", "liquid/environment.py",
